@@ -60,6 +60,31 @@ Theorem C10_sort_positions_stable_unique : forall k cells p (q : list (val * nat
 Proof. exact sort_positions_stable_unique. Qed.
 Print Assumptions C10_sort_positions_stable_unique.
 
+(* ---- operations.sort on the implementation's layout (every column carries its own row ids; cells are
+   fetched by id): sort(dm, by) is the positional take of every column along ONE permutation that sorts
+   the by-column; ids are kept with their rows, each once; columns stay aligned *)
+Theorem C10_sort_dm : forall d by_, NoDup (drowid d) ->
+  Forall (fun nc => col_aligned (drowid d) (snd nc)) (dcols d) -> col_aligned (drowid d) by_ ->
+  kind_cells_ok (ckind by_) (cseq by_) ->
+  exists p r, sort_dm d by_ = Some r /\
+    sort_positions (ckind by_) (cseq by_) = Some p /\ is_sorting_perm (cseq by_) p = true /\
+    take_pos p (drowid d) = Some (drowid r) /\ NoDup (drowid r) /\
+    Forall2 (fun nc rc => fst rc = fst nc /\ ckind (snd rc) = ckind (snd nc) /\
+                          col_aligned (drowid r) (snd rc) /\
+                          take_pos p (cseq (snd nc)) = Some (cseq (snd rc))) (dcols d) (dcols r).
+Proof. exact sort_dm_spec. Qed.
+Print Assumptions C10_sort_dm.
+
+(* sort(col) (by_ = obj) and sort(col, by=other): values rearranged the same way, row ids = the source's
+   (position-aligned with the DataMatrix, so the result can be assigned back) *)
+Theorem C10_sort_col : forall ids obj by_, NoDup ids -> col_aligned ids obj -> col_aligned ids by_ ->
+  kind_cells_ok (ckind by_) (cseq by_) ->
+  exists p xs, sort_col obj by_ = Some {| ckind := ckind obj; crowid := ids; cseq := xs |} /\
+    sort_positions (ckind by_) (cseq by_) = Some p /\
+    is_sorting_perm (cseq by_) p = true /\ take_pos p (cseq obj) = Some xs.
+Proof. exact sort_col_spec. Qed.
+Print Assumptions C10_sort_col.
+
 (* ---- bin_split over the generated guard and bound *)
 Theorem C10_bin_split_partition : forall (A : Type) (rows : list A) (bins : Z), 0 < bins ->
   let n := Z.of_nat (List.length rows) in
@@ -83,4 +108,9 @@ Example C10_ex_sort : sort_positions KMixed [VNone; VStr "b"; VFlt FNan; VInt 2;
   = Some [7; 6; 3; 5; 4; 1; 0; 2]%nat.
 Proof. vm_compute. reflexivity. Qed.
 Example C10_ex_bin : bin_split [1; 2; 3; 4; 5] 3 = Ok [[1]; [2; 3]; [4; 5]].
+Proof. vm_compute. reflexivity. Qed.
+Example C10_ex_sort_col :
+  sort_col {| ckind := KMixed; crowid := [7; 3; 5]%N; cseq := [VStr "x"; VStr "y"; VStr "z"] |}
+           {| ckind := KFloat; crowid := [7; 3; 5]%N; cseq := [VFlt FNan; VFlt (FInf true); VInt 0] |}
+  = Some {| ckind := KMixed; crowid := [7; 3; 5]%N; cseq := [VStr "y"; VStr "z"; VStr "x"] |}.
 Proof. vm_compute. reflexivity. Qed.
